@@ -87,6 +87,8 @@ contract(CLOUD + "BaseCloud.get_token",
 
 # ---- C19: a discovered V3 device is authenticated with the credentials registered for its id, in either byte order ----------------
 DISC = "msmart.discover."
+NOT_CACHED = {"a_connection_that_failed_to_log_in_is_not_kept": "implies(old(Discover._cloud) is None, Discover._cloud is None)"}
+
 contract(DISC + "Discover._get_cloud",
          params={},
          globals={DISC + "Discover._cloud": "opt:obj:" + NHP, DISC + "Discover._lock": "ext:lock", DISC + "Discover._region": "str",
@@ -94,7 +96,8 @@ contract(DISC + "Discover._get_cloud",
                   DISC + "Discover._get_async_client": "opt:ext:client_factory"},
          rtype="obj:" + NHP,
          assigns={"Discover._cloud": "result"},
-         raises={CLOUD + "CloudError": {}, "builtins.KeyError": {}, "builtins.ValueError": {}, "builtins.TypeError": {}},
+         raises={CLOUD + "CloudError": {"post": NOT_CACHED}, "builtins.KeyError": {"post": NOT_CACHED}, "builtins.ValueError": {"post": NOT_CACHED},
+                 "builtins.TypeError": {"post": NOT_CACHED}},
          post_let={"LG": "events('login')"},
          ensures={"a_new_connection_is_logged_in_before_it_is_handed_out": "implies(old(Discover._cloud) is None, len(LG) == 1 and same_object(LG[0], result))",
                   "an_existing_connection_is_reused": "implies(old(Discover._cloud) is not None, len(LG) == 0 and same_object(result, old(Discover._cloud)))"},
@@ -186,3 +189,13 @@ contract(SHC + "._Security.encrypt_iam_password#derivation",
          returns="hashlib.md5(hashlib.md5(password.encode('ASCII')).hexdigest().encode('ASCII')).hexdigest() if self._use_china_server else "
                  "hashlib.sha256((login_id + hashlib.md5(hashlib.md5(password.encode('ASCII')).hexdigest().encode('ASCII')).hexdigest() + 'ac21b9f9cbfe4ca5a88562ef25e2b768').encode('ASCII')).hexdigest()",
          raises={"builtins.UnicodeEncodeError": {}})
+
+
+contract(NHP + ".__init__",
+         params={"self": "new:" + NHP, "region": "str", "account": "opt:str", "password": "opt:str"},
+         modifies=["self.*"],
+         raises={"builtins.ValueError": {}},
+         ensures={"explicit_credentials_are_used_as_given": "implies(bool(account) and bool(password), self._account == account and self._password == password)",
+                  "no_session_yet": "self._session_id == '' and self._login_id is None",
+                  "server": "self._base_url == NetHomePlusCloud.BASE_URL"},
+         notes="C19: the login account and the password that the derivation hashes are exactly the ones the user supplied")
